@@ -13,6 +13,13 @@ if deeper:
           "visible constant) have already been tried. Aim deeper: configurations, call sequences, sizes, state carried from earlier calls, "
           "rarely taken branches, fixed-point vs float build differences (a change may be demonstrated on a -DOPUS_FIXED_POINT=ON build if you say so), "
           "helper functions two or three calls away from the API, or interactions between two features. The demonstration must still fail reliably.")
+if "--round3" in sys.argv:
+    t += ("\n\nThis is a third round: two earlier rounds already covered the obvious places and a first layer of deeper ones (state carried between "
+          "calls, rarely taken branches, single configurations). Look for changes whose effect is SUBTLE rather than rare: a quantity that is slightly wrong "
+          "but plausible (a gain off by a fraction of a dB that accumulates, a delay off by a few samples in one mode only, a smoothing constant, a rounding "
+          "direction, an energy or rate estimate biased in one band), something that only shows in the fixed-point build (-DOPUS_FIXED_POINT=ON; say so), in the "
+          "multistream / projection / 24-bit entry points, at 8/12/24 kHz API rates, with 2.5/5/40/60/80/100/120 ms frames, or only after a long history "
+          "(hundreds of frames). The demonstration must still fail reliably and pass on the untouched code with a clear margin.")
 os.makedirs(work, exist_ok=True)
 if not os.path.isdir(os.path.join(work, "repo")):
     subprocess.check_call(["git", "-C", "/repo", "worktree", "add", "--detach", os.path.join(work, "repo"), "HEAD"], stdout=subprocess.DEVNULL)
